@@ -61,7 +61,7 @@ def rule_loops(ctx, rep):
                     rep.ok(R, ent, 'BOUNDED: no consuming call is visible inside the cycle; every case of %s terminates' % txt, loc)
                 else:
                     rep.violation(R, ent, 'loop in %s has a cycle without a consuming iterator call: it may not terminate' % path, loc)
-    rep.floor(R, n, 12, 'natural loops in the library')
+    rep.floor(R, n, 5, 'natural loops in the library')  # 12 today; a loop rewritten as an iterator chain leaves the rule (std terminates)
 
 
 def _loop_label(x, head, body):
